@@ -302,10 +302,12 @@ impl Buffer {
         let end_column = self.get_last_editable_column() + 1;
 
         let layer = &mut self.layers[layer];
-        for i in start_line..=end_line {
-            let line = &mut layer.lines[i as usize];
+        for i in start_line..=end_line.min(layer.lines.len() as i32 - 1) {
+            let Some(line) = layer.lines.get_mut(i as usize) else {
+                continue;
+            };
             if line.chars.len() > start_column {
-                line.chars.insert(end_column as usize, AttributedChar::default());
+                line.chars.insert((end_column as usize).min(line.chars.len()), AttributedChar::default());
                 line.chars.remove(start_column);
             }
         }
@@ -319,11 +321,15 @@ impl Buffer {
         let end_column = self.get_last_editable_column() as usize;
 
         let layer = &mut self.layers[layer];
-        for i in start_line..=end_line {
-            let line = &mut layer.lines[i as usize];
+        for i in start_line..=end_line.min(layer.lines.len() as i32 - 1) {
+            let Some(line) = layer.lines.get_mut(i as usize) else {
+                continue;
+            };
             if line.chars.len() > start_column {
                 line.chars.insert(start_column, AttributedChar::default());
-                line.chars.remove(end_column + 1);
+                if end_column + 1 < line.chars.len() {
+                    line.chars.remove(end_column + 1);
+                }
             }
         }
     }
